@@ -6,6 +6,7 @@ import (
 	"errors"
 	"fmt"
 	"io"
+	"math/rand"
 	"net"
 	"time"
 
@@ -33,6 +34,9 @@ type closeCase struct {
 	// message sent by the peer is still unread) | partial-final | partial-first | partial-second (a Reader
 	// was taken and only part of a single-frame message / of the first / of the final fragment was read) | full-read
 	Mid string `json:"mid_message,omitempty"`
+	// OpenWriter: permessage-deflate is negotiated and the endpoint has a streamed message open whose first
+	// (compressed, RSV1) frame is already on the wire when the Close frame / the echo is written
+	OpenWriter bool `json:"open_compressed_writer,omitempty"`
 }
 
 func newConnPair(client bool) (*websocket.Conn, *rawPeer, *pipeEnd) {
@@ -45,6 +49,26 @@ func newConnPair(client bool) (*websocket.Conn, *rawPeer, *pipeEnd) {
 func runCloseCase(cc closeCase) (string, string) {
 	reason := unhx(cc.Reason)
 	c, peer, pend := newConnPair(cc.Client)
+	if cc.OpenWriter {
+		pend.Close()
+		c.CloseNow()
+		a, b := newPipe()
+		c = websocket.VerifNewConn(a, cc.Client, websocket.VerifCopts{Enabled: true}, 16)
+		peer, pend = newRawPeer(b, !cc.Client), b
+		wctx, wcancel := context.WithTimeout(context.Background(), 3*time.Second)
+		defer wcancel()
+		// a first chunk (> 64 KiB of periodic text, found by search as in C01's ping-inside cases) whose first input block
+		// leaves the compressor in exactly one piece: exactly one frame of the message — the first, RSV1 set, FIN
+		// clear — is written (it may still sit in the write buffer) and the message stays open
+		first := unhx(genPingInsideCase(rand.New(rand.NewSource(int64(cc.Code))), 1).Ops[0].Chunks[0])
+		w, err := c.Writer(wctx, websocket.MessageBinary)
+		if err == nil {
+			_, err = w.Write(first)
+		}
+		if err != nil {
+			return "write-before-close-failed", fmt.Sprintf("%+v: %v", cc, err)
+		}
+	}
 	defer pend.Close()
 	defer c.CloseNow()
 	want := []byte{byte(cc.Code >> 8), byte(cc.Code)}
@@ -126,6 +150,14 @@ func runCloseCase(cc closeCase) (string, string) {
 		if dur > 4*time.Second {
 			return "close-slow", fmt.Sprintf("Close(%d) took %v with a peer that echoes at once", cc.Code, dur)
 		}
+		if cc.OpenWriter {
+			peer.mu.Lock()
+			seen := len(peer.frames) == 2 && peer.frames[0].Rsv1 && !peer.frames[0].Fin
+			peer.mu.Unlock()
+			if !seen {
+				return "write-before-close-failed", fmt.Sprintf("%+v: the first frame of the open compressed message did not precede the Close frame (%d frames, first %s)", cc, len(peer.frames), opsOf(peer.frames))
+			}
+		}
 		switch {
 		case cc.Code == 1005:
 			if got == nil || len(got.Payload) != 0 {
@@ -194,8 +226,22 @@ func runCloseCase(cc closeCase) (string, string) {
 			return "closestatus", "CloseStatus does not return the code"
 		}
 		f, ferr := peer.readFrame(5 * time.Second)
+		for cc.OpenWriter && ferr == nil && f.Op != 8 {
+			f, ferr = peer.readFrame(5 * time.Second) // the frames of the open message come first
+		}
+		if cc.OpenWriter {
+			peer.mu.Lock()
+			seen := len(peer.frames) == 2 && peer.frames[0].Rsv1 && !peer.frames[0].Fin
+			peer.mu.Unlock()
+			if !seen {
+				return "write-before-close-failed", fmt.Sprintf("%+v: the first frame of the open compressed message did not precede the echo", cc)
+			}
+		}
 		if ferr != nil || f.Op != 8 || !bytes.Equal(f.Payload, payload) {
 			return "peer-close-not-echoed", fmt.Sprintf("echo frame %+v err=%v, want payload %s", f, ferr, trunc(hx(payload), 40))
+		}
+		if !f.Fin || f.Masked != cc.Client || f.Rsv1 || f.Rsv2 || f.Rsv3 {
+			return "close-frame-malformed", fmt.Sprintf("the echo of the peer's Close frame is malformed: %+v", f)
 		}
 		// closed for good
 		if sh, w := closedForGood(c); sh != "" {
@@ -442,6 +488,11 @@ func runC06(ctx *runCtx) {
 		cases = append(cases, closeCase{Kind: "peer", Client: client, Code: 1000, Reason: hx([]byte("split in two")), Mid: "split"},
 			closeCase{Kind: "peer", Client: client, Code: 3999, Reason: "-", Mid: "split"},
 			closeCase{Kind: "peer", Client: client, Code: 1001, Reason: hx(bytes.Repeat([]byte("r"), 123)), Mid: "split"})
+		// a Close frame / the echo of the peer's Close frame written while a compressed streamed message is open
+		cases = append(cases, closeCase{Kind: "local", Client: client, Code: 1000, Reason: hx([]byte("mid-message")), OpenWriter: true},
+			closeCase{Kind: "local", Client: client, Code: 4000, Reason: "-", OpenWriter: true},
+			closeCase{Kind: "peer", Client: client, Code: 1001, Reason: hx([]byte("going away")), OpenWriter: true},
+			closeCase{Kind: "peer", Client: client, Code: 1005, Reason: "-", OpenWriter: true})
 		for _, mid := range []string{"unread-queued", "partial-final", "partial-first", "partial-second", "full-read"} {
 			cases = append(cases, closeCase{Kind: "local", Client: client, Code: 1000, Reason: hx([]byte("done")), Mid: mid})
 			cases = append(cases, closeCase{Kind: "local", Client: client, Code: 3000, Reason: "-", Mid: mid})
